@@ -68,3 +68,12 @@ func init() {
 		Budget:      [2]int{1200, 7200},
 	})
 }
+
+func init() {
+	addProp(&propDef{
+		ID: "C03", Check: "term", Level: "exploration", CrashIsViolation: true, HangSecs: 10,
+		Rule: "(i) every string up to the length bound over 20 byte-class representatives as spec; (ii) every sequence of lexemes up to the bound joined three ways; (iii) every grammar-derived spec up to the size bound x every argv up to the length bound x every subset of {a,o} backed by a set environment variable; each (spec, argv, env) case is executed in a supervised worker process (64 MiB stack limit, hang watchdog) and its outcome class judged; a worker that dies or stops making progress is attributed to the single case it was executing through an mmap'ed state record, and that case is re-run alone three times before it is reported; non-trivial = the spec is rejected at a position > 0, or compiled and the command line was accepted or rejected",
+		Assumptions: []string{"liveness oracle: no progress on one case for 10 s (normal cost 3-30 microseconds), confirmed by three isolated re-runs with a 30 s deadline; stack exhaustion is detected by the Go runtime (debug.SetMaxStack 64 MiB), not by time"},
+		Budget:      [2]int{1500, 7200},
+	})
+}
